@@ -505,11 +505,19 @@ def _replay_runs(data):
     from glotaran.project.project import Project
 
     env, what = data.get("env", {}), data.get("what") or data["cfg"]["what"]
+    if not env:
+        # float self-check: fixed scenarios with result names that share prefixes / contain '_run_'
+        for base, dirs in (("a", ["a_run_0000", "a_run_0001", "ab_run_0005"]), ("fit", ["fit_run_0001", "fit_run_b_run_0000"]),
+                           ("fit_run_b", ["fit_run_0003", "fit_run_b_run_0000"]), ("x", [])):
+            v, detail = _replay_runs({"env": {"base": base, "sfx": "0000", **{f"d{i}": n_ for i, n_ in enumerate(dirs)},
+                                              **{f"present{i}": True for i in range(len(dirs))}}, "what": what, "cfg": data["cfg"]})
+            if v:
+                return v, detail
+        if what == "create":
+            return _replay_import_data()
+        return False, "run numbering scenarios behave as documented"
     base = env.get("base", "a")
     dirs = [env.get(f"d{i}") for i in range(3) if env.get(f"present{i}") and env.get(f"d{i}")]
-    if not env:
-        # float self-check default scenario
-        base, dirs = "a", ["a_run_0000", "a_run_0001", "ab_run_0005"]
     with tempfile.TemporaryDirectory() as d, _w.catch_warnings():
         _w.simplefilter("ignore")
         project = Project.open(Path(d) / "proj", create_if_not_exist=True)
@@ -536,3 +544,38 @@ def _replay_runs(data):
             return True, f"{state}: lookup of {arg!r} raised {type(ex).__name__}: {ex}"
         want = exact[-1] if exact else None
         return got != want, f"{state}: latest result for {arg!r} resolves to {got!r}, expected {want!r}"
+
+
+def _replay_import_data():
+    """Concrete (sampling) scenario for Project.import_data - not encoded symbolically (real netCDF writer behind it)."""
+    import tempfile
+    import warnings as _w
+    from pathlib import Path
+
+    import numpy as np
+    import xarray as xr
+
+    from glotaran.project.project import Project
+
+    with tempfile.TemporaryDirectory() as d, _w.catch_warnings():
+        _w.simplefilter("ignore")
+        project = Project.open(Path(d) / "proj", create_if_not_exist=True)
+        one = xr.DataArray(np.ones((2, 2)), coords=[("time", [0.0, 1.0]), ("spectral", [1.0, 2.0])]).to_dataset(name="data")
+        two = xr.DataArray(np.full((2, 2), 2.0), coords=[("time", [0.0, 1.0]), ("spectral", [1.0, 2.0])]).to_dataset(name="data")
+        project.import_data(one, dataset_name="ds")
+        f = project._data_registry.directory / "ds.nc"
+        before = f.read_bytes()
+        project.import_data(two, dataset_name="ds")  # defaults: keep the existing file
+        if f.read_bytes() != before:
+            return True, "Project.import_data with default flags replaced the existing dataset file data/ds.nc"
+        try:
+            project.import_data(two, dataset_name="ds", ignore_existing=False)
+            return True, "Project.import_data(ignore_existing=False) on an existing dataset did not raise FileExistsError"
+        except FileExistsError:
+            pass
+        if f.read_bytes() != before:
+            return True, "Project.import_data(ignore_existing=False) modified the existing file before refusing"
+        project.import_data(two, dataset_name="ds", allow_overwrite=True)
+        if f.read_bytes() == before:
+            return True, "Project.import_data(allow_overwrite=True) did not replace the dataset"
+    return False, "import_data keeps / refuses / overwrites as documented"
